@@ -100,3 +100,18 @@ fn(N + "__init__", cls="NTx", props=["C23"], returns="none",
    modifies=["self.connection", "self._savepoint", "self.is_active", "self._previous_nested", "connection._nested_transaction"])
 import pyvc.contract as _pcn  # noqa: E402
 _pcn.CLASSES["ConnN"].fields["_trans_context_manager"] = "v"
+
+# ---- public end-of-life operations of a savepoint handle (Transaction.close / rollback / commit on a NestedTransaction)
+for _n in ("_do_close", "_do_rollback"):
+    fn(N + _n, cls="NTx", props=["C23"], types=TY, returns="none", requires=["self._previous_nested is not self"],
+       ensures=["not self.is_active", "self.connection._nested_transaction is not self"],
+       may_raise={"BaseException": "True"}, exc_ensures={"BaseException": ["not self.is_active", "self.connection._nested_transaction is not self"]},
+       modifies=["self.is_active", "self.connection._nested_transaction"])
+    _pcn.CLASSES["NTx"].methods[_n] = N + _n
+TRN = "engine/base.py::Transaction."
+for _n in ("close", "rollback", "commit"):
+    fn(TRN + _n + "#nested", cls="NTx", props=["C23"], types=TY, returns="none", requires=["self._previous_nested is not self"],
+       ensures=["not self.is_active", "self.connection._nested_transaction is not self"],
+       may_raise={"BaseException": "True"},
+       exc_ensures={"BaseException": ["not self.is_active"]},
+       modifies=["self.is_active", "self.connection._nested_transaction"])
